@@ -257,7 +257,7 @@ theorem grow_bindLabel (s : State) (h : Inv s) (l sec : Nat) (off : BitVec 64) :
 /-- a step that adds nothing (possibly creating the address table section), followed by a `Grow` step -/
 theorem grow_after {a b c : State} (hac : a.cur < a.secs.length) (he : SecsExt a.secs b.secs) (hr : b.relocs = a.relocs)
     (hg : b.ghost = a.ghost) (hc : b.cur = a.cur) (ho : b.curOff = a.curOff)
-    (hab : b.addrTabSec = a.addrTabSec ∨ (a.addrTabSec = none ∧ b.addrTabSec = some a.secs.length))
+    (hab : b.addrTabSec = a.addrTabSec ∨ (a.addrTabSec = none ∧ b.addrTabSec = some a.secs.length ∧ a.secs.length < b.secs.length))
     (hbc : c.addrTabSec = b.addrTabSec) (g : Grow b c) : Grow a c := by
   obtain ⟨news, h1, h2, h3⟩ := g.newR
   obtain ⟨newg, h4, h5⟩ := g.newG
@@ -272,11 +272,14 @@ theorem grow_after {a b c : State} (hac : a.cur < a.secs.length) (he : SecsExt a
   · rcases g.notBoth with e | e
     · exact .inl (by rw [e, hr])
     · exact .inr (by rw [e, hg])
-  · rw [hbc]; exact hab
+  · rw [hbc]
+    rcases hab with e | ⟨e1, e2, e3⟩
+    · exact .inl e
+    · exact .inr ⟨e1, e2, Nat.lt_of_lt_of_le e3 (lenExt_length g.len)⟩
   · intro hn
     apply g.curOk
     rw [hc]
-    rcases hab with e | ⟨_, e⟩
+    rcases hab with e | ⟨_, e, _⟩
     · rw [e]; exact hn
     · rw [e]; intro hx; have := Option.some.inj hx; omega
 
@@ -337,13 +340,14 @@ theorem grow_tab (s : State) (hc : s.cur < s.secs.length) (t : BitVec 64) (re : 
     Grow s ((newReloc (addAddress s t) re).1.emit bytes) := by
   have hA := curOff_addAddress s t hc
   have hAf := frame_addAddress s t hc
-  have hAt : (addAddress s t).addrTabSec = s.addrTabSec ∨ (s.addrTabSec = none ∧ (addAddress s t).addrTabSec = some s.secs.length) := by
+  have hAt : (addAddress s t).addrTabSec = s.addrTabSec ∨
+      (s.addrTabSec = none ∧ (addAddress s t).addrTabSec = some s.secs.length ∧ s.secs.length < (addAddress s t).secs.length) := by
     unfold addAddress
     split
     · exact .inl rfl
     · cases hx : s.addrTabSec with
       | some i => exact .inl (by simp [hx])
-      | none => exact .inr ⟨rfl, by simp⟩
+      | none => exact .inr ⟨rfl, by simp, by simp [modifySec_length]⟩
   exact grow_after hc hAf.secs hA.2.2.1 hA.2.2.2.1 hA.1 hA.2.1 hAt rfl
     (grow_newReloc_emit (addAddress s t) hAf.cur re bytes
       ⟨h.sec.trans hA.1.symm, h.off.trans hA.2.1.symm, h.size, h.val, h.pos, h.fmt, h.tab, h.zero⟩)
